@@ -7,6 +7,7 @@ import (
 	"math/rand"
 	"net/smtp"
 	"strings"
+	"sync"
 	"text/template"
 	"time"
 
@@ -65,9 +66,17 @@ func (s SMTPMailer) Send(ctx context.Context, mail authboss.Email) error {
 // and create a random string of length 23
 // Example:
 // 284fad24nao8f4na284f2n4
+// randMu guards the mailers' random source: a *rand.Rand must not be used
+// concurrently, and Send is called from several goroutines at once (the
+// modules send their mails in goroutines of their own).
+var randMu sync.Mutex
+
 func (s SMTPMailer) boundary() string {
 	const alphabet = "abcdefghijklmnopqrstuvwxyz0123456789"
 	buf := &bytes.Buffer{}
+
+	randMu.Lock()
+	defer randMu.Unlock()
 
 	for i := 0; i < 23; i++ {
 		buf.WriteByte(alphabet[s.rand.Int()%len(alphabet)])
